@@ -73,6 +73,16 @@ def warm_metrics():
             distance.DISTANCES[name](x.copy(), y.copy())
         except Exception:  # a broken metric is the checks' business, not warm-up's
             pass
+    # strided (non-contiguous) float64 views: a second numba specialisation per metric
+    xs, ys = np.zeros(8), np.zeros(8)
+    xs[::2], ys[::2] = x, y
+    for name in sorted(distance.DISTANCES):
+        try:
+            distance.DISTANCES[name](xs[::2], ys[::2])
+            distance.DISTANCES[name](xs[::2], y.copy())
+            distance.DISTANCES[name](x.copy(), ys[::2])
+        except Exception:
+            pass
     # the few (metric, dtype) pairs that the non-float64 worlds use
     for name in DTYPE_METRICS:
         for dt in DTYPES:
